@@ -1,2 +1,6 @@
 import PanqecVerif.Model.Bits
 import PanqecVerif.Model.Code
+import PanqecVerif.Model.Cli
+import PanqecVerif.Proofs.CliPlanSpike
+import PanqecVerif.Proofs.CliPlan
+import PanqecVerif.Properties.C14
